@@ -156,7 +156,7 @@ class RelativeSequence(AbstractSequence):
 
         # Remove unclosed notes
         for channel in open_messages.keys():
-            for key in open_messages.keys():
+            for key in open_messages[channel].keys():
                 note_list = open_messages[channel].get(key, [])
                 for msg in note_list:
                     if msg in messages_normalized:
